@@ -155,12 +155,7 @@ def map_at(ex, st, fr, ins, name, argv):
         return Ptr(rid, NODE_HDR + offs[1])
 
     def miss(s, this, tb):
-        s.events.append(('throw', 'std::out_of_range', tb['name']))
-        unwind = ins.a[4]
-        if unwind is not None:
-            ex.jump(s, s.frames[-1], unwind)
-            return None
-        s.status = 'throw:std::out_of_range'
+        ex.throw(s, 'std::out_of_range', ins, tb['name'])
         return None
     return _lookup(ex, st, fr, ins, name, argv, hit, miss)
 
@@ -170,9 +165,40 @@ def noop(ex, st, fr, ins, name, argv):
 
 
 def throw_bad_function_call(ex, st, fr, ins, name, argv):
-    st.events.append(('throw', 'std::bad_function_call', ''))
-    st.status = 'throw:std::bad_function_call'
-    return None
+    ex.throw(st, 'std::bad_function_call', ins)
+    return [st]
+
+
+def thrower(what):
+    def f(ex, st, fr, ins, name, argv):
+        ex.throw(st, what, ins)
+        return [st]
+    return f
+
+
+def begin_catch(ex, st, fr, ins, name, argv):
+    st.events.append(('caught', st.extra.get('exc')))
+    st.extra['exc'] = None
+    return NULL
+
+
+THROWERS = {
+    '_ZSt24__throw_out_of_range_fmtPKcz': 'std::out_of_range',
+    '_ZSt20__throw_out_of_rangePKc': 'std::out_of_range',
+    '_ZSt24__throw_invalid_argumentPKc': 'std::invalid_argument',
+    '_ZSt20__throw_length_errorPKc': 'std::length_error',
+    '_ZSt19__throw_logic_errorPKc': 'std::logic_error',
+    '_ZSt25__throw_bad_function_callv': 'std::bad_function_call',
+    '_ZSt21__throw_bad_exceptionv': 'std::bad_exception',
+    '_ZSt27__throw_bad_optional_accessv': 'std::bad_optional_access',
+    '_ZSt28__throw_bad_array_new_lengthv': 'std::bad_array_new_length',
+    '_ZSt16__throw_bad_castv': 'std::bad_cast',
+    '_ZSt21__throw_runtime_errorPKc': 'std::runtime_error',
+    '_ZSt20__throw_domain_errorPKc': 'std::domain_error',
+    '_ZSt22__throw_overflow_errorPKc': 'std::overflow_error',
+    '__cxa_throw': 'exception',
+    '__cxa_rethrow': 'exception',
+}
 
 
 def is_map_ctor(n):
@@ -190,7 +216,11 @@ def is_map_at(n):
 def containers():
     d = base()
     d['__cxa_atexit'] = lambda ex, st, fr, ins, name, argv: ic('i32', 0)
+    for n_, what in THROWERS.items():
+        d[n_] = thrower(what)
     d['_ZSt25__throw_bad_function_callv'] = throw_bad_function_call
+    d['__cxa_begin_catch'] = begin_catch
+    d['__cxa_end_catch'] = noop
     d['__cxa_guard_acquire'] = lambda ex, st, fr, ins, name, argv: ic('i32', 1)
     d['__cxa_guard_release'] = noop
     d['__cxa_guard_abort'] = noop
@@ -254,9 +284,8 @@ def op_delete(ex, st, fr, ins, name, argv):
 
 
 def throw_length_error(ex, st, fr, ins, name, argv):
-    st.events.append(('throw', 'std::length_error', ''))
-    st.status = 'throw:std::length_error'
-    return None
+    ex.throw(st, 'std::length_error', ins)
+    return [st]
 
 
 def heap():
@@ -340,12 +369,111 @@ def umap_find(ex, st, fr, ins, name, argv):
         _finish(ex, st, res, NULL, normal)
         out.append(st)
         return out
+    n = ex.load(st, kp, ('int', 64))
+    if tm.is_ic(n) and isinstance(q, Ptr) and q.region is not None:
+        bs = [ex.load(st, Ptr(q.region, q.off + i), ('int', 8)) for i in range(n.args[0])]
+        bs = [st.pinned.get(b.id, b) if isinstance(b, tm.T) else b for b in bs]
+        if any(not tm.is_ic(b) for b in bs):
+            # a string of known length with symbolic bytes: one successor per spelling of that length, plus the miss
+            if not all(isinstance(b, tm.T) for b in bs):
+                raise Unsupported('string key with non-term bytes')
+            out = []
+            res, normal = ins.res, ins.a[3]
+            neqs = []
+            for key, rid in tb['entries']:
+                if len(key) != len(bs):
+                    continue
+                eq = ic('i1', 1)
+                for b, c in zip(bs, key):
+                    e1 = mk('icmp', 'i1', 'eq', b, ic('i8', c if c < 128 else c - 256))
+                    eq = e1 if (tm.is_ic(eq) and eq.args[0] == 1) else mk('and', 'i1', eq, e1)
+                if tm.is_ic(eq) and eq.args[0] == 0:
+                    continue
+                s2 = st.clone()
+                s2.assume(eq)
+                s2.events.append(('lookup-hit', tb['name'], key))
+                _finish(ex, s2, res, Ptr(rid, 0), normal)
+                out.append(s2)
+                neqs.append(tm.negate(eq))
+            for ne in neqs:
+                st.assume(ne)
+            st.events.append(('lookup-miss', tb['name'], None))
+            _finish(ex, st, res, NULL, normal)
+            out.append(st)
+            return out
     key = _sv_bytes(ex, st, kp)
     st.events.append(('lookup', tb['name'], key))
     for k, rid in tb['entries']:
         if k == key:
             return Ptr(rid, 0)
     return NULL
+
+
+def memchr_(ex, st, fr, ins, name, argv):
+    """memchr(hay, c, n) with a concrete length: forks on the first position whose byte equals (unsigned char)c"""
+    hay, c, n = argv[0], argv[1], argv[2]
+    if not tm.is_ic(n) or not isinstance(hay, Ptr) or hay.region is None:
+        raise Unsupported('memchr with symbolic length or pointer')
+    c8 = mk('trunc', 'i8', c) if isinstance(c, tm.T) and c.ty != 'i8' else c
+    bs = [ex.load(st, Ptr(hay.region, hay.off + i), ('int', 8)) for i in range(n.args[0])]
+    res, normal = ins.res, ins.a[3]
+    out = []
+    cur = st
+    for i, b in enumerate(bs):
+        eq = mk('icmp', 'i1', 'eq', b, c8)
+        if tm.is_ic(eq):
+            if eq.args[0] == 1:
+                _finish(ex, cur, res, Ptr(hay.region, hay.off + i), normal)
+                out.append(cur)
+                return out
+            continue
+        ne = tm.negate(eq)
+        if ne.id in cur.pcset:
+            continue
+        if eq.id in cur.pcset:
+            _finish(ex, cur, res, Ptr(hay.region, hay.off + i), normal)
+            out.append(cur)
+            return out
+        s2 = cur.clone()
+        s2.assume(eq)
+        _finish(ex, s2, res, Ptr(hay.region, hay.off + i), normal)
+        out.append(s2)
+        cur.assume(ne)
+    _finish(ex, cur, res, NULL, normal)
+    out.append(cur)
+    return out
+
+
+def arbitrary_string(ex, st, fr, ins, name, argv):
+    """phqv_arbitrary_string(): reference to a std::string with arbitrary contents (only passed on to summarised
+    functions whose contract does not depend on a particular content)"""
+    rid = st.new_region(32, 'arg', 'arbitrary-std-string')
+    return Ptr(rid, 0)
+
+
+def sto_float(ty):
+    """std::stof / stod / stold per their documented contract: the converted value (any value of the type), or
+    std::invalid_argument (no conversion could be performed), or std::out_of_range (value out of the type's range)"""
+    def f(ex, st, fr, ins, name, argv):
+        res, normal = ins.res, ins.a[3]
+        k = st.extra.get('sto_calls', 0)
+        out = []
+        for what in ('std::invalid_argument', 'std::out_of_range'):
+            s2 = st.clone()
+            s2.extra['sto_calls'] = k + 1
+            ex.throw(s2, what, ins, name)
+            out.append(s2)
+        st.extra['sto_calls'] = k + 1
+        st.events.append(('sto', ty, k))
+        _finish(ex, st, res, tm.arg(ty, 'parsed%d' % k), normal)
+        out.append(st)
+        return out
+    return f
+
+
+def is_sto(n):
+    m = _re.match(r'^_ZNSt7__cxx11(4stof|4stod|5stold)ERKNS_12basic_string', n)
+    return m.group(1)[1:] if m else None
 
 
 def map_ctor_default(ex, st, fr, ins, name, argv):
@@ -377,4 +505,8 @@ def containers():
     d = _containers0()
     d['__patterns__'] = d['__patterns__'] + [(is_umap_ctor, umap_ctor_il), (is_umap_find, umap_find), (is_map_default_ctor, map_ctor_default)]
     d['phqv_any_string'] = any_string
+    d['phqv_arbitrary_string'] = arbitrary_string
+    d['memchr'] = memchr_
+    d['__patterns__'] = d['__patterns__'] + [(lambda n: is_sto(n) == 'stof', sto_float('f32')), (lambda n: is_sto(n) == 'stod', sto_float('f64')),
+                                             (lambda n: is_sto(n) == 'stold', sto_float('f80'))]
     return d
